@@ -9,7 +9,8 @@ def run(tier):
     c.assumptions = [
         "addresses are opaque tokens: net.IP.String / To4 / IsLinkLocalUnicast are uninterpreted functions of the token, String is injective on the three tokens used",
         "REFERENCE: harness/mdns/c17.go computes the expected map (valid record: five mandatory keys, txtvers=1, not the local SKI, boolean register; remove deletes; add merges usable addresses without duplicates; unknown add inserts) and the post-map of the real processMdnsEntry must equal it; since the pre-map is arbitrary (0..2 entries, 0..2 addresses each, invariant: usable and duplicate-free) the step covers event histories of any length",
-        "CUT: util.DeepCopy (json round trip of the snapshot) is a no-op; the asynchronous report is counted, its ordering is the second part (scheduler exploration)",
+        "CUT: util.DeepCopy (json round trip of the snapshot) is a no-op in the engine",
+        "part 2 (H_C17_Order): two changing events, the report goroutines interleaved under the delay-bounded scheduler: the last list delivered is the final set",
     ]
     c.bounds = {"pre_entries_max": 2, "addresses_per_entry_max": 2, "event_addresses_max": 2, "address_tokens": 3, "loop_unwind": 80}
     res, meta = lib.run_engine("mdns", ["H_C17_Step"], sched="manual", cuts=MDNS_CUTS, loop=80)
@@ -20,4 +21,16 @@ def run(tier):
         for v in r["violations"] or []:
             if v["kind"] in ("assert", "panic"):
                 c.handle("mdns", e, v, replay=False)  # tokens have no native counterpart (uninterpreted address functions)
+    # part 2: the asynchronous reports of two changing events under every delay-bounded schedule
+    d = 5 if tier == "thorough" else 4
+    res2, meta2 = lib.run_engine("mdns", ["H_C17_Order"], sched="explore", preempt=d, cuts=MDNS_CUTS, loop=80)
+    c.add_run("report-order", res2, meta2)
+    c.bounds["changing_events_in_flight"] = 2
+    c.bounds["delay_bound"] = d
+    for e, r in (res2 or {}).items():
+        if not r["covers"].get("c17.end"):
+            c.covers_missing.append(e + ":c17.end")
+        for v in r["violations"] or []:
+            if v["kind"] in ("assert", "panic", "deadlock"):
+                c.handle("mdns", e, v, replay=True, attempts=200, hang_s=60)
     return c.finish()
